@@ -1,14 +1,18 @@
 import BddVerif.Lemmas.AlgoEq2NF
+import BddVerif.Lemmas.AlgoEq2NFPanicSim
 /-!
-# `mk_cnf` / `mk_disjunctive_clause`: the deliberate panic `assert!(index < self.num_vars as usize)`
+# `mk_cnf` / `mk_disjunctive_clause`: the deliberate panics
 
 * `mk_disjunctive_clause_panics` — a clause that fixes a variable `≥ num_vars`: the translated constructor panics with
-  the message of line 207 (the hand model `mkDisjClause` panics too: `Props.C10.clause_ctor_spec`);
+  the message of `assert!(index < self.num_vars as usize)` (line 207; the hand model `mkDisjClause` panics too:
+  `Props.C10.clause_ctor_spec`);
 * `Bdd_mk_cnf_singleton_panics` — `mk_cnf` on a one-clause list with such a clause panics with the same message, for every
-  fuel `≥ 2`.
-The general statement "a list with SOME clause outside the variable set makes the translated `mk_cnf` panic with the
-message of line 207 or of the `assert_eq!` of line 19" is recorded as `Bdd_mk_cnf_panics_statement` (not proved: the
-simulation of AlgoEq2NFBase.lean follows the runs on which the hand model returns normally).
+  fuel `≥ 2`;
+* `Bdd_mk_cnf_panics` — the translated counterpart of `Props.C10.mk_cnf_panics_iff`: a list with SOME clause outside the
+  variable set makes the translated `mk_cnf` panic with the message of line 207 or of the `assert_eq!(*cx, c)` of
+  line 19 (never `"fuel"`), for every fuel `≥ n + 2 + 3·S·S`; closed form `Bdd_mk_cnf_panics_closed` (`n ≤ 15`),
+  driver's fuel `BddVariableSet_mk_cnf_panics_driver` (`n ≤ 14`).
+(`mk_dnf` has no such assertion — `Props.C10`: a clause outside the variable set silently yields an invalid array.)
 -/
 namespace B.AlgoEq2NF
 open B B.NF B.Gen B.Gen.Algo B.Gen.Algo2 B.AlgoEqUtil
@@ -111,12 +115,97 @@ theorem Bdd_mk_cnf_singleton_panics (ctx : VarSet) (c : Array (Option Bool)) (hr
   rw [hstep]
   rfl
 
-/-- NOT PROVED — the general form of the deliberate panics of `mk_cnf`: some clause outside the variable set ⇒ the
-    translated function panics with the message of `assert!(index < self.num_vars)` or of `assert_eq!(*cx, c)`
-    (the hand model: `Props.C10.mk_cnf_panics_iff`) -/
-def Bdd_mk_cnf_panics_statement : Prop :=
-  ∀ (ctx : VarSet) (cnf : Cl), (∀ c, c ∈ cnf.toList → c.size ≤ 65536) → (∃ c, c ∈ cnf.toList ∧ ¬ InRange ctx.1 c.toList) →
-    ∃ F, ∀ fuel, F ≤ fuel → Bdd_mk_cnf fuel ctx cnf = .panic disjMsg ∨ Bdd_mk_cnf fuel ctx cnf = .panic dupMsg
+/-! ### the general form -/
+
+/-- every combination performed by `mkCnfRec` is on canonical operands, whatever the clause list (a group with a clause
+    outside the variable set never returns normally) -/
+theorem cnf_combOK_any (ctx : VarSet) (S : Nat) (hS : ∀ f, (canon ctx.1 f).size ≤ S) :
+    ∀ (k : Nat) (cs : List PVal), k ≤ ctx.1 → Agree (ctx.1 - k) cs → CombOK (cnfCfg ctx) (PairOK ctx.1 S) k cs := by
+  intro k
+  induction k with
+  | zero => intro cs _ _; trivial
+  | succ k ih =>
+    intro cs hk ha
+    match cs, ha with
+    | [], _ => trivial
+    | [c], _ => trivial
+    | c1 :: c2 :: t, ha =>
+      have hvar : ctx.1 - (k + 1) + 1 = ctx.1 - k := by omega
+      simp only [CombOK]
+      dsimp only [cnfCfg_n]
+      rcases hno : ((c1 :: c2 :: t).any fun c => (c.get (ctx.1 - (k + 1))).isSome) with _ | _
+      · exact ih _ (by omega) (by rw [← hvar]; exact ha.skip hno)
+      · simp only []
+        have hag : ∀ o, Agree (ctx.1 - k) ((c1 :: c2 :: t).filter (fun c => c.get (ctx.1 - (k + 1)) == o)) :=
+          fun o => by rw [← hvar]; exact ha.filter o
+        refine ⟨ih _ (by omega) (hag none), ih _ (by omega) (hag _), ih _ (by omega) (hag _), ?_⟩
+        intro dc ht hf e1 e2 e3
+        rw [← mkCnfRec_eq_genRec] at e1 e2 e3
+        have hin : ∀ (l : List PVal) (r : Arr), mkCnfRec ctx.1 k l = .ok r → ∀ c ∈ l, InRange ctx.1 c := by
+          intro l r e c hc
+          apply Classical.byContradiction
+          intro hnot
+          have := (mkCnfRec_total ctx.1 k l).2 ⟨c, hc, hnot⟩
+          rw [e] at this; cases this
+        obtain ⟨r1, e1', s1⟩ := mkCnfRec_spec ctx.1 k _ (by omega) (hin _ _ e1) (hag none)
+        obtain ⟨r2, e2', s2⟩ := mkCnfRec_spec ctx.1 k _ (by omega) (hin _ _ e2) (hag (some true))
+        obtain ⟨r3, e3', s3⟩ := mkCnfRec_spec ctx.1 k _ (by omega) (hin _ _ e3) (hag (some false))
+        have h1 : r1 = dc := Outcome.ok.inj (e1'.symm.trans e1)
+        have h2 : r2 = ht := Outcome.ok.inj (e2'.symm.trans e2)
+        have h3 : r3 = hf := Outcome.ok.inj (e3'.symm.trans e3)
+        subst h1 h2 h3
+        have s12 := s1.and s2
+        have hz : ∀ {A : Arr} {f : (Nat → Bool) → Bool}, Sem ctx.1 A f → A.size ≤ S := fun h => by rw [h.eq]; exact hS _
+        exact ⟨⟨s1.wfo, s2.wfo, hz s1, hz s2⟩, ⟨s12.wfo, s3.wfo, hz s12, hz s3⟩⟩
+
+/-- **the deliberate panics of `mk_cnf`, translated code**: some clause fixes a variable outside the variable set ⇒ the
+    translated function panics with the message of `assert!(index < self.num_vars)` (`mk_disjunctive_clause`) or of
+    `assert_eq!(*cx, c)` — for every fuel `≥ n + 2 + 3·S·S`, `S` a bound on the canonical arrays over `n` variables -/
+theorem Bdd_mk_cnf_panics (ctx : VarSet) (S : Nat) (hS : ∀ f, (canon ctx.1 f).size ≤ S) (h32 : S * S + 2 ≤ 2 ^ 32)
+    (cnf : Cl) (hlen : ∀ c, c ∈ cnf.toList → c.size ≤ 65536)
+    (hbad : ∃ c, c ∈ cnf.toList ∧ ¬ InRange ctx.1 c.toList) (fuel : Nat) (hfuel : ctx.1 + 2 + 3 * (S * S) ≤ fuel) :
+    Bdd_mk_cnf fuel ctx cnf = .panic disjMsg ∨ Bdd_mk_cnf fuel ctx cnf = .panic dupMsg := by
+  obtain ⟨c, hc, hcbad⟩ := hbad
+  have hp := (mkCnfRec_total ctx.1 ctx.1 (toL cnf)).2 ⟨c.toList, List.mem_map_of_mem hc, hcbad⟩
+  rcases e : mkCnfRec ctx.1 ctx.1 (toL cnf) with r | m | mm
+  · rw [e] at hp; cases hp
+  · rw [e] at hp; cases hp
+  · rw [mkCnfRec_eq_genRec] at e
+    unfold Bdd_mk_cnf
+    show Bdd_mk_cnf___rec fuel 0 ctx cnf = _ ∨ Bdd_mk_cnf___rec fuel 0 ctx cnf = _
+    rw [cnf_desugar]
+    refine tRec_panic_genRec (cnfCfg ctx) (PairOK ctx.1 S) (3 * (S * S)) disjMsg
+      (fun f A B hP hf => Bdd_and_eq_model h32 f A B hP hf) ctx.1 fuel 0 cnf mm (by simp) hfuel ?_ ?_
+      (cnf_combOK_any ctx S hS ctx.1 (toL cnf) (Nat.le_refl _) (by intro c _ d _ i hi; omega)) e
+    · intro x hx r h
+      have hin : InRange ctx.1 x.toList := by
+        apply Classical.byContradiction
+        intro hnot
+        have : mkDisjClause ctx.1 x.toList = .ok r := h
+        rw [mkDisjClause_foreign hnot] at this; cases this
+      exact (mk_disjunctive_clause_eq_model ctx x hin (hlen x hx)).trans h
+    · intro x hx m h
+      have hout : ¬ InRange ctx.1 x.toList := by
+        intro hin
+        obtain ⟨r, er, _⟩ := mkDisjClause_inRange hin
+        have : mkDisjClause ctx.1 x.toList = .panic m := h
+        rw [er] at this; cases this
+      exact mk_disjunctive_clause_panics ctx x hout (hlen x hx)
+
+/-- closed form: at most 15 variables -/
+theorem Bdd_mk_cnf_panics_closed (ctx : VarSet) (hn : ctx.1 ≤ 15) (cnf : Cl) (hlen : ∀ c, c ∈ cnf.toList → c.size ≤ 65536)
+    (hbad : ∃ c, c ∈ cnf.toList ∧ ¬ InRange ctx.1 c.toList) (fuel : Nat)
+    (hfuel : ctx.1 + 2 + 3 * ((2 ^ ctx.1 + 1) * (2 ^ ctx.1 + 1)) ≤ fuel) :
+    Bdd_mk_cnf fuel ctx cnf = .panic disjMsg ∨ Bdd_mk_cnf fuel ctx cnf = .panic dupMsg :=
+  Bdd_mk_cnf_panics ctx _ (canon_size_le _) (closed_bounds hn) cnf hlen hbad fuel hfuel
+
+/-- the driver's call: at most 14 variables -/
+theorem BddVariableSet_mk_cnf_panics_driver (set : VarSet) (hn : set.1 ≤ 14) (cnf : Cl)
+    (hlen : ∀ c, c ∈ cnf.toList → c.size ≤ 65536) (hbad : ∃ c, c ∈ cnf.toList ∧ ¬ InRange set.1 c.toList) :
+    BddVariableSet_mk_cnf Drive.Algo2.fuelHuge set cnf = .panic disjMsg ∨
+      BddVariableSet_mk_cnf Drive.Algo2.fuelHuge set cnf = .panic dupMsg := by
+  unfold BddVariableSet_mk_cnf Drive.Algo2.fuelHuge
+  exact Bdd_mk_cnf_panics_closed set (by omega) cnf hlen hbad _ (closed_fuel hn)
 
 /-! ### non-vacuity -/
 
@@ -127,5 +216,17 @@ example (fuel : Nat) (h : 2 ≤ fuel) : Bdd_mk_cnf fuel (2, #["a", "b"], {}) #[#
     intro hin
     have := hin 2 false (by simp [PVal.get])
     omega) (by decide) fuel h
+
+/-- two different clauses that agree on the two variables of the set and differ outside it: whichever assertion the run
+    reaches first, the translated function panics (driver's fuel) -/
+example : BddVariableSet_mk_cnf Drive.Algo2.fuelHuge (2, #["a", "b"], {})
+      #[#[some true, none, some false], #[some true, none, some true]] = .panic disjMsg ∨
+    BddVariableSet_mk_cnf Drive.Algo2.fuelHuge (2, #["a", "b"], {})
+      #[#[some true, none, some false], #[some true, none, some true]] = .panic dupMsg :=
+  BddVariableSet_mk_cnf_panics_driver (2, #["a", "b"], {}) (by decide) _ (by decide)
+    ⟨#[some true, none, some false], by simp, by
+      intro hin
+      have := hin 2 false (by simp [PVal.get])
+      omega⟩
 
 end B.AlgoEq2NF
